@@ -56,10 +56,25 @@ def _run_one(args):
                 out["functions"].append({"file": rel, "qualname": qn, "lines": [lo, hi],
                                          "sha": extract.source_hash(rel, qn)})
             except extract.Missing as e:
-                out["undecided"].append(["<extract>", f"function under contract not found: {e}"])
+                # a NESTED helper (a def inside a function under contract) that is gone while its enclosing function is still there was
+                # moved or inlined by a refactoring: the enclosing function is interpreted from the current source with whatever it calls
+                # now, so nothing is lost — noted, not undecided.  A missing top-level function or method stays undecided.
+                parent = qn.rsplit(".", 1)[0] if "." in qn else None
+                optional = False
+                if parent:
+                    try:
+                        import ast as _ast
+                        optional = isinstance(extract.find(rel, parent), (_ast.FunctionDef, _ast.AsyncFunctionDef))
+                    except extract.Missing:
+                        optional = False
+                if optional:
+                    out["notes"].append(f"nested helper {rel}::{qn} no longer exists inside {parent} (refactored); {parent} is interpreted as it is now")
+                else:
+                    out["undecided"].append(["<extract>", f"function under contract not found: {e}"])
         if sc.kind == "evaluation":
             res = sc.run(None)
             fx = res.pop("functions", None)
+            res["notes"] = out["notes"] + list(res.get("notes", []))
             out.update(res)
             if fx:
                 out["functions"] += fx
@@ -67,7 +82,7 @@ def _run_one(args):
             res = core.explore(sc.run, sc.name, max_paths=sc.max_paths, budget_s=sc.budget_s)
             out["paths"] = res.paths
             out["undecided"] += [[str(p), r] for p, r in res.undecided]
-            out["notes"] = res.notes
+            out["notes"] = out["notes"] + list(res.notes)
             out["covered"] = sorted(res.covered)
             out["solver_s"] = res.stats["solver_s"]
             out["queries"] = res.stats["queries"]
